@@ -206,8 +206,8 @@ fn check(plan: &Plan, out: &RunOut) -> CheckOut {
                             differs("address the UDP socket was bound to", a.to_string());
                         }
                     }
-                    if logged_one(&b, "Server listening on") != Some(want_addr.as_str()) {
-                        differs("start-up log", format!("{:?}", logged_one(&b, "Server listening on")));
+                    if let Some(l) = log_says_otherwise(&b, "Server listening on", &want_addr) {
+                        differs("start-up log", l);
                     }
                 }
                 "num_workers" => {
@@ -215,8 +215,8 @@ fn check(plan: &Plan, out: &RunOut) -> CheckOut {
                     if b.worker_tasks.len() != n || b.udp_binds.len() != n {
                         differs("worker threads spawned / sockets bound", format!("{} / {}", b.worker_tasks.len(), b.udp_binds.len()));
                     }
-                    if logged_one(&b, "Number of workers") != Some(want.as_str()) {
-                        differs("start-up log", format!("{:?}", logged_one(&b, "Number of workers")));
+                    if let Some(l) = log_says_otherwise(&b, "Number of workers", want) {
+                        differs("start-up log", l);
                     }
                 }
                 "health_check_port" => {
@@ -234,8 +234,8 @@ fn check(plan: &Plan, out: &RunOut) -> CheckOut {
                             differs("first status timer period (interval/10 +- <256 ms)", format!("{} ns", d));
                         }
                     }
-                    if logged_one(&b, "Status updates every") != Some(format!("{} seconds", secs).as_str()) {
-                        differs("start-up log", format!("{:?}", logged_one(&b, "Status updates every")));
+                    if let Some(l) = log_says_otherwise(&b, "Status updates every", &format!("{} seconds", secs)) {
+                        differs("start-up log", l);
                     }
                 }
                 "batch_size" => {
@@ -244,8 +244,8 @@ fn check(plan: &Plan, out: &RunOut) -> CheckOut {
                     if largest != n.min(200) {
                         differs("largest batch a 200-request burst produced", largest.to_string());
                     }
-                    if logged_one(&b, "Max response batch size") != Some(want.as_str()) {
-                        differs("start-up log", format!("{:?}", logged_one(&b, "Max response batch size")));
+                    if let Some(l) = log_says_otherwise(&b, "Max response batch size", want) {
+                        differs("start-up log", l);
                     }
                 }
                 "fault_percentage" => {
@@ -254,10 +254,9 @@ fn check(plan: &Plan, out: &RunOut) -> CheckOut {
                     if p == 0 && fails > 0 {
                         differs("replies failing verification with fault injection written as 0", fails.to_string());
                     }
-                    let logged = logged_one(&b, "Deliberate response errors").unwrap_or("").to_string();
                     let want_log = if p == 0 { "disabled".to_string() } else { format!("~{}%", p) };
-                    if logged != want_log {
-                        differs("start-up log", logged);
+                    if let Some(l) = log_says_otherwise(&b, "Deliberate response errors", &want_log) {
+                        differs("start-up log", l);
                     }
                     // 200 replies: the failing count must be plausible for p (6 sigma)
                     let q = p as f64 / 100.0;
@@ -268,18 +267,25 @@ fn check(plan: &Plan, out: &RunOut) -> CheckOut {
                 }
                 "client_stats" => {
                     let on = want == "on" || want == "yes";
-                    let logged = logged_one(&b, "Client req/resp tracking").unwrap_or("");
-                    if logged != if on { "per-client" } else { "aggregated" } {
-                        differs("start-up log", logged.to_string());
+                    if let Some(l) = log_says_otherwise(&b, "Client req/resp tracking", if on { "per-client" } else { "aggregated" }) {
+                        differs("start-up log", l);
                     }
                     if b.reporter_task != on {
                         differs("reporter thread started", b.reporter_task.to_string());
                     }
                 }
                 "seed" | "seed_bare" => {
+                    // the key the server runs with shows in every certificate it sends (the view
+                    // verifies responses under the key of the written seed); the start-up line, where
+                    // present, must name the same key
                     let pk = r::hex_lower(&r::pubkey_from_seed(&crate::exec::hex_decode(want).unwrap()));
-                    if logged_one(&b, "Long-term public key") != Some(pk.as_str()) {
-                        differs("announced public key", format!("{:?}", logged_one(&b, "Long-term public key")));
+                    if let Some(l) = log_says_otherwise(&b, "Long-term public key", &pk) {
+                        differs("announced public key", l);
+                    }
+                    // (a response that verifies proves possession of that seed's key; with deliberate
+                    // errors configured in the background some replies fail by design)
+                    if !v.sends.iter().any(|s| matches!(&s.verdict, Some(Ok(_)))) {
+                        differs("certificate chain of the responses", format!("none of {} responses verifies under the written seed's key", v.sends.len()));
                     }
                 }
                 _ => {}
@@ -293,6 +299,16 @@ fn check(plan: &Plan, out: &RunOut) -> CheckOut {
         "verdict": if co.violations.is_empty() { "ok".to_string() } else { co.violations[0].signature.clone() },
     }));
     co
+}
+
+/// The start-up banner is corroborating evidence only: a line that is present and states another
+/// value is reported; a missing or reworded line is not (the effective value is read off the
+/// machine: sockets, threads, timers, batches, certificates).
+fn log_says_otherwise(b: &Boot, key: &str, want: &str) -> Option<String> {
+    match logged_one(b, key) {
+        Some(l) if l != want => Some(format!("{:?}", l)),
+        _ => None,
+    }
 }
 
 pub fn property() -> Property {
